@@ -14,7 +14,8 @@ def gen_cases(report, n):
         prog = g.program()
         invs = g.invocations(prog)
         outs = [(k, rng.choice(R.WORDS)) for k in g.bt_keys]
-        cfg = R.full_cfg(verbose=rng.random() < 0.5)
+        # one run in six with --no-deps: only what the command line names runs, still once per (recipe, arguments)
+        cfg = R.full_cfg(verbose=rng.random() < 0.5, noDeps=rng.random() < 0.17)
         cases.append({"prog": prog, "cfg": cfg, "invs": invs, "status": [], "outs": outs, "answers": []})
     return cases
 
@@ -71,12 +72,12 @@ def run(report):
         a2 = ["b"] * np0
         last = len(recipes) - 1
         invs = [[0, a1], [0, a2], [last, ["a"] * len(recipes[last]["params"])], [0, a1]]
-        cases.append({"prog": prog, "cfg": R.full_cfg(verbose=True), "invs": invs, "status": [], "outs": [],
+        cases.append({"prog": prog, "cfg": R.full_cfg(verbose=True, noDeps=(len(cases) % 7 == 0)), "invs": invs, "status": [], "outs": [],
                       "answers": [], "small": True})
     results = R.run_cases(cases, drv)
     distinct = set()
     stats = {"random_programs": n, "small_graphs": len(graphs), "small_graph_space": total_small,
-             "recipes_hist": {}, "with_subsequents": 0, "with_repeated_invocation": 0, "memo_hits": 0}
+             "recipes_hist": {}, "with_subsequents": 0, "with_repeated_invocation": 0, "memo_hits": 0, "no_deps_runs": 0}
     samples = []
     for c, (m, r) in zip(cases, results):
         nrec = len(c["prog"]["recipes"])
@@ -86,6 +87,7 @@ def run(report):
         keys = [json.dumps(i) for i in c["invs"]]
         if len(set(keys)) < len(keys):
             stats["with_repeated_invocation"] += 1
+            stats["no_deps_runs"] += bool(c["cfg"].get("noDeps"))
         spec = R.spec_run(c["prog"], c["cfg"], c["invs"], c["outs"])
         distinct.add(json.dumps(r["events"]))
         if r["events"] != spec or r["exit"] != 0:
@@ -111,7 +113,7 @@ def run(report):
     report.coverage.update({
         "evaluations": len(cases),
         "distinct_nontrivial": len(distinct),
-        "rule": "random acyclic recipe graphs (1-8 recipes, parameters with defaults, diamonds, subsequents, dependency arguments over caller parameters / literals / concatenation / backticks, words with spaces and the empty word) x command lines with repeated invocations; plus graphs with <=3 recipes over a fixed edge/argument alphabet (sampled from the full space, size in stats). distinct = distinct observed traces",
+        "rule": "random acyclic recipe graphs (1-8 recipes, parameters with defaults, diamonds, subsequents, dependency arguments over caller parameters / literals / concatenation / backticks, words with spaces and the empty word) x command lines with repeated invocations, one run in six with --no-deps; plus graphs with <=3 recipes over a fixed edge/argument alphabet (sampled from the full space, size in stats). distinct = distinct observed traces",
         "samples": samples,
         "traces_validated_against_impl": len(cases),
         "stats": stats,
